@@ -92,7 +92,7 @@ PLANS = {
         fams=[('c15', dict(quick=4000, thorough=80000), {})],
         mc=[MC_REL],
         nontrivial=lambda rec: len(rec.get('runs', [])) == 2 and rec['runs'][0]['res'] != rec['runs'][1]['res'],
-        rule='each case = (d,w,base) and (d,w,base+o) for o in {max_wrap_width(m), pad_block_width, unicode_strikeout(false), no_table_borders, raw_mode, link_footnotes(false), no_link_wrapping, min_wrap_width(k)}; half of the documents have nothing the option applies to; non-trivial = the two results differ; distinct by sha256(runs)',
+        rule='each case = (d,w,base) and (d,w,base+o) for o in {max_wrap_width(m), pad_block_width, unicode_strikeout(false), no_table_borders, raw_mode, link_footnotes(false), no_link_wrapping, min_wrap_width(k), raw_mode(false) after no_table_borders}; half of the documents have nothing the option applies to; non-trivial = the two results differ; distinct by sha256(runs)',
         assumptions=['the per-option relation is the one written next to P_C15 in spec/Props.tla'],
     ),
     'C14': dict(
@@ -176,7 +176,7 @@ PLANS = {
     'C18': dict(
         fams=[('c18', dict(quick=2500, thorough=50000), {})],
         mc=[MC_HIDE],
-        nontrivial=lambda rec: len(rec.get('runs', [])) >= 2 and rec['runs'][0]['res']['k'] == 'ok' and rec['runs'][0]['res'] != rec['runs'][2]['res'],
+        nontrivial=lambda rec: len(rec.get('runs', [])) >= 2 and rec['runs'][0]['res']['k'] == 'ok' and (len(rec['runs']) < 3 or rec['runs'][0]['res'] != rec['runs'][2]['res']),
         rule='block-grammar documents (lists, quotes, headings, links, tables, pre) in which random subtrees (incl. li, td, tr, table, a, headings) are hidden through a class rule, an id rule, an element rule, an inline style, or the height:0 + overflow:hidden idiom (rule or inline); run 1 = the document with use_doc_css, run 2 = the document with those subtrees deleted, runs 3/4 = use_doc_css off against the document stripped of its style element and style attributes; the predicate also checks that the deleted document is Css!DeleteHidden of the original (reference selector + cascade semantics); widths 1..100; non-trivial = hiding changes the output; distinct by sha256(runs)',
         assumptions=['hidden sets are constructed by marking (the generator never evaluates selectors); the specification re-derives them with RefMatch / RefCascade and a disagreement is a tool error'],
     ),
